@@ -24,9 +24,10 @@ VARIABLES
     rpend,       \* [Rps -> Nat]
     rended,      \* [Rps -> {"no","signalled","seen"}]
     cflushed,    \* [Cls -> Nat]
-    rflushed     \* [Rps -> Nat]
+    rflushed,    \* [Rps -> Nat]
+    rseen        \* [Rps -> BOOLEAN] the router has been told (Err) that r's connection failed
 
-mon == <<skip, run, nviol, closed, regs, frames, cpend, cended, rpend, rended, cflushed, rflushed>>
+mon == <<skip, run, nviol, closed, regs, frames, cpend, cended, rpend, rended, cflushed, rflushed, rseen>>
 tvars == <<rrVars, l, mon>>
 
 MonInit ==
@@ -34,6 +35,7 @@ MonInit ==
     /\ cpend = [c \in Cls |-> 0] /\ cended = [c \in Cls |-> "no"]
     /\ rpend = [r \in Rps |-> 0] /\ rended = [r \in Rps |-> "no"]
     /\ cflushed = [c \in Cls |-> 0] /\ rflushed = [r \in Rps |-> 0]
+    /\ rseen = [r \in Rps |-> FALSE]
 
 TraceInit == RRInit /\ l = 1 /\ MonInit
 
@@ -47,11 +49,12 @@ Reset(e) ==
     /\ cpend' = [c \in Cls |-> 0] /\ cended' = [c \in Cls |-> "no"]
     /\ rpend' = [r \in Rps |-> 0] /\ rended' = [r \in Rps |-> "no"]
     /\ cflushed' = [c \in Cls |-> 0] /\ rflushed' = [r \in Rps |-> 0]
+    /\ rseen' = [r \in Rps |-> FALSE]
 
 Flag(props, kind) ==
     /\ PrintT(<<"VIOL", run, l, props, kind>>)
     /\ skip' = TRUE /\ nviol' = nviol + 1
-    /\ UNCHANGED <<rrVars, run, closed, regs, frames, cpend, cended, rpend, rended, cflushed, rflushed>>
+    /\ UNCHANGED <<rrVars, run, closed, regs, frames, cpend, cended, rpend, rended, cflushed, rflushed, rseen>>
 
 Stutter == UNCHANGED <<rrVars, mon>>
 \* only monitor variables change
@@ -75,9 +78,9 @@ Step(e) ==
             IF e.res # "ok" THEN Stutter
             ELSE IF e.kind = "cl"
             THEN RegisterRequestor(e.id) /\ regs' = regs + 1
-                 /\ UNCHANGED <<skip, run, nviol, closed, frames, cpend, cended, rpend, rended, cflushed, rflushed>>
+                 /\ UNCHANGED <<skip, run, nviol, closed, frames, cpend, cended, rpend, rended, cflushed, rflushed, rseen>>
             ELSE RegisterReplier(e.id) /\ regs' = regs + 1
-                 /\ UNCHANGED <<skip, run, nviol, closed, frames, cpend, cended, rpend, rended, cflushed, rflushed>>
+                 /\ UNCHANGED <<skip, run, nviol, closed, frames, cpend, cended, rpend, rended, cflushed, rflushed, rseen>>
       [] e.ev = "adopt" ->
             IF ~e.fifo_ok \/ cstat[e.id] # "queued" THEN Flag({"C02", "C11"}, "adoption_does_not_match_registration")
             ELSE AdoptRequestor(e.id) /\ UNCHANGED mon
@@ -97,47 +100,47 @@ Step(e) ==
       [] e.ev = "env" ->
             CASE e.what \in {"request", "junk", "cl_err"} ->
                     Mon(/\ cpend' = [cpend EXCEPT ![e.id] = @ + 1] /\ frames' = frames + 1
-                        /\ UNCHANGED <<skip, run, nviol, closed, regs, cended, rpend, rended, cflushed, rflushed>>)
+                        /\ UNCHANGED <<skip, run, nviol, closed, regs, cended, rpend, rended, cflushed, rflushed, rseen>>)
               [] e.what = "cl_end" ->
                     Mon(/\ cended' = [cended EXCEPT ![e.id] = "signalled"]
-                        /\ UNCHANGED <<skip, run, nviol, closed, regs, frames, cpend, rpend, rended, cflushed, rflushed>>)
+                        /\ UNCHANGED <<skip, run, nviol, closed, regs, frames, cpend, rpend, rended, cflushed, rflushed, rseen>>)
               [] e.what \in {"reply", "bad_reply", "sv_err"} ->
                     Mon(/\ rpend' = [rpend EXCEPT ![e.id] = @ + 1] /\ frames' = frames + 1
-                        /\ UNCHANGED <<skip, run, nviol, closed, regs, cpend, cended, rended, cflushed, rflushed>>)
+                        /\ UNCHANGED <<skip, run, nviol, closed, regs, cpend, cended, rended, cflushed, rflushed, rseen>>)
               [] e.what = "sv_end" ->
                     Mon(/\ rended' = [rended EXCEPT ![e.id] = "signalled"]
-                        /\ UNCHANGED <<skip, run, nviol, closed, regs, frames, cpend, cended, rpend, cflushed, rflushed>>)
+                        /\ UNCHANGED <<skip, run, nviol, closed, regs, frames, cpend, cended, rpend, cflushed, rflushed, rseen>>)
               [] e.what = "break_cl" -> RequestorFails(e.id) /\ UNCHANGED mon
               [] e.what = "break_sv" -> ReplierFails(e.id) /\ UNCHANGED mon
               [] e.what = "close" ->
                     Mon(/\ closed' = TRUE
-                        /\ UNCHANGED <<skip, run, nviol, regs, frames, cpend, cended, rpend, rended, cflushed, rflushed>>)
+                        /\ UNCHANGED <<skip, run, nviol, regs, frames, cpend, cended, rpend, rended, cflushed, rflushed, rseen>>)
               [] OTHER -> Stutter
       [] e.ev = "st_poll" /\ e.role = "cl" ->
             IF cstat[e.id] # "live" THEN Flag({"C02"}, "polled_unadopted_requestor_stream")
             ELSE IF e.res = "pending" THEN Stutter
             ELSE IF e.res = "end"
             THEN Mon(/\ cended' = [cended EXCEPT ![e.id] = "seen"]
-                     /\ UNCHANGED <<skip, run, nviol, closed, regs, frames, cpend, rpend, rended, cflushed, rflushed>>)
+                     /\ UNCHANGED <<skip, run, nviol, closed, regs, frames, cpend, rpend, rended, cflushed, rflushed, rseen>>)
             ELSE IF e.res = "err" \/ e.what = "junk"
             THEN Mon(/\ cpend' = [cpend EXCEPT ![e.id] = @ - 1]
-                     /\ UNCHANGED <<skip, run, nviol, closed, regs, frames, cended, rpend, rended, cflushed, rflushed>>)
+                     /\ UNCHANGED <<skip, run, nviol, closed, regs, frames, cended, rpend, rended, cflushed, rflushed, rseen>>)
             ELSE IF e.item # <<e.id, Len(taken[e.id]) + 1>> THEN Flag({"C02"}, "requestor_stream_order")
             ELSE /\ TakeRequest(e.id, e.fits)
                  /\ cpend' = [cpend EXCEPT ![e.id] = @ - 1]
-                 /\ UNCHANGED <<skip, run, nviol, closed, regs, frames, cended, rpend, rended, cflushed, rflushed>>
+                 /\ UNCHANGED <<skip, run, nviol, closed, regs, frames, cended, rpend, rended, cflushed, rflushed, rseen>>
       [] e.ev = "st_poll" /\ e.role = "sv" ->
             IF rstat[e.id] # "bound" THEN Flag({"C10"}, "polled_stream_of_unbound_replier")
             ELSE IF e.res = "pending" THEN Stutter
             ELSE IF e.res = "end"
             THEN Mon(/\ rended' = [rended EXCEPT ![e.id] = "seen"]
-                     /\ UNCHANGED <<skip, run, nviol, closed, regs, frames, cpend, cended, rpend, cflushed, rflushed>>)
+                     /\ UNCHANGED <<skip, run, nviol, closed, regs, frames, cpend, cended, rpend, cflushed, rflushed, rseen>>)
             ELSE IF e.res = "err"
             THEN Mon(/\ rpend' = [rpend EXCEPT ![e.id] = @ - 1]
-                     /\ UNCHANGED <<skip, run, nviol, closed, regs, frames, cpend, cended, rended, cflushed, rflushed>>)
+                     /\ UNCHANGED <<skip, run, nviol, closed, regs, frames, cpend, cended, rended, cflushed, rflushed, rseen>>)
             ELSE /\ TakeReply(e.item[1], e.item[2], e.tag)
                  /\ rpend' = [rpend EXCEPT ![e.id] = @ - 1]
-                 /\ UNCHANGED <<skip, run, nviol, closed, regs, frames, cpend, cended, rended, cflushed, rflushed>>
+                 /\ UNCHANGED <<skip, run, nviol, closed, regs, frames, cpend, cended, rended, cflushed, rflushed, rseen>>
       [] e.ev = "si_send" /\ e.role = "sv" ->
             IF rstat[e.id] = "rejected"
             THEN IF ~rhealthy[e.id] THEN Stutter
@@ -174,12 +177,18 @@ Step(e) ==
             ELSE IF CanHandReply(e.id, e.item[2]) THEN HandReply(e.id, e.item[2]) /\ UNCHANGED mon
             ELSE Flag({"C02"}, IF \E i \in 1..Len(crecv[e.id]) : crecv[e.id][i] = <<e.id, e.item[2]>>
                                THEN "duplicate_reply" ELSE "reply_skipped_or_reordered")
+      [] e.ev \in {"si_ready", "si_flush"} /\ e.role = "sv" /\ e.res = "err" ->
+            \* the replier's connection failed and the router has now been told
+            IF e.id \in Rps /\ ~rhealthy[e.id]
+            THEN Mon(/\ rseen' = [rseen EXCEPT ![e.id] = TRUE]
+                     /\ UNCHANGED <<skip, run, nviol, closed, regs, frames, cpend, cended, rpend, rended, cflushed, rflushed>>)
+            ELSE Stutter
       [] e.ev = "si_flush" /\ e.res = "ok" ->
             IF e.role = "cl"
             THEN Mon(/\ cflushed' = [cflushed EXCEPT ![e.id] = Len(crecv[e.id])]
-                     /\ UNCHANGED <<skip, run, nviol, closed, regs, frames, cpend, cended, rpend, rended, rflushed>>)
+                     /\ UNCHANGED <<skip, run, nviol, closed, regs, frames, cpend, cended, rpend, rended, rflushed, rseen>>)
             ELSE Mon(/\ rflushed' = [rflushed EXCEPT ![e.id] = Len(rgot[e.id])]
-                     /\ UNCHANGED <<skip, run, nviol, closed, regs, frames, cpend, cended, rpend, rended, cflushed>>)
+                     /\ UNCHANGED <<skip, run, nviol, closed, regs, frames, cpend, cended, rpend, rended, cflushed, rseen>>)
       [] e.ev = "poll_end" ->
             IF e.res = "panic" THEN Flag({"C08", "C11"}, "router_panic")
             ELSE IF e.res = "spin" THEN Flag({"C09"}, "spin")
@@ -187,7 +196,9 @@ Step(e) ==
             ELSE Stutter
       [] e.ev = "livelock" -> Flag({"C09"}, "self_wake_livelock")
       [] e.ev = "quiescent" ->
-            IF closed THEN Flag({"C16", "C09"}, "closed_channel_not_finished")
+            IF \E r \in Bound : rseen[r]
+            THEN Flag({"C08", "C10"}, "replier_whose_failure_was_reported_is_still_bound")
+            ELSE IF closed THEN Flag({"C16", "C09"}, "closed_channel_not_finished")
             ELSE IF Unadopted THEN Flag({"C09", "C10"}, "quiescent_unadopted_registration")
             ELSE IF ~RejectedComplete THEN Flag({"C10", "C09", "C11"}, "quiescent_rejected_replier_not_told_and_closed")
             ELSE IF UnobservedReplierEnd THEN Flag({"C09", "C10"}, "quiescent_replier_end_unobserved")
